@@ -536,3 +536,22 @@ func (c *Cluster) UpIDs() []string {
 	sort.Strings(out)
 	return out
 }
+
+// Bounce stops the node gracefully and restarts the SAME Raft object in-process (Stop + Restart), keeping
+// the incarnation, its storages and its state machine.
+func (n *Node) Bounce() error {
+	n.mu.Lock()
+	defer n.mu.Unlock()
+	if !n.Up {
+		return nil
+	}
+	n.cl.M.Emit(mon.Event{Kind: mon.KNote, Node: n.ID, Inc: n.incN, Str: "bounce: Stop()"})
+	n.Raft.Stop()
+	err := n.Raft.Restart()
+	es := ""
+	if err != nil {
+		es = err.Error()
+	}
+	n.cl.M.Emit(mon.Event{Kind: mon.KNote, Node: n.ID, Inc: n.incN, Str: "bounce: Restart() " + es})
+	return err
+}
